@@ -10,7 +10,7 @@ from __future__ import annotations
 import io
 import itertools
 
-from pdfminer.psparser import PSBaseParser, PSEOF, PSKeyword, PSLiteral
+from pdfminer.psparser import KWD, LIT, PSBaseParser, PSEOF, PSKeyword, PSLiteral
 
 ID = "C14"
 LEVEL = "model_checking"
@@ -36,7 +36,10 @@ META = {
         "every string over the 27-symbol class alphabet up to sigma_len, over the 13 state-steering symbols up to "
         "sigma12_len, and over the 36-symbol extended alphabet up to sigx_len; each tokenised with BUFSIZ = 1..len+1 "
         "and 4096; additionally every string over the 27-symbol alphabet up to seek_len is tokenised after seek(k) for every k "
-        "(all buffer sizes again). A case is one string (distinct by construction within a family); non-trivial = the reference run "
+        "(all buffer sizes again), and once more by ONE parser object that ran to end of input and was rewound with seek(0); "
+        "one token of 4095..9000 bytes of every lexical class (beyond the default buffer and CPython's 4300-digit int limit); "
+        "the symbol-table contract (equal names are the identical object) on every token, also after 40000 distinct names "
+        "were interned in the process. A case is one string (distinct by construction within a family); non-trivial = the reference run "
         "yields at least one token. states = strings (nodes of the string tree), transitions = (string, BUFSIZ) runs, "
         "traces = strings whose every run was compared with the single-buffer reference."
     ),
@@ -154,6 +157,9 @@ def tokenize(data: bytes, bufsiz: int, seek: int = 0):
         while True:
             pos, t = p.nexttoken()
             toks.append((pos, canon_tok(t)))
+            # documented contract of the symbol tables: equal names are the identical object
+            if isinstance(t, PSKeyword) and t is not KWD(t.name) or isinstance(t, PSLiteral) and t is not LIT(t.name):
+                problems.append(("symbol-not-interned", repr(t.name)[:40]))
             if len(toks) > len(data) + 2:
                 problems.append(("more-tokens-than-bytes", len(toks)))
                 break
@@ -238,6 +244,59 @@ def check_seek(data: bytes, st) -> None:
         st.traces += 1
 
 
+def check_reuse(data: bytes, st) -> None:
+    """a parser that ran to end of input and is then rewound with seek(0) tokenises like a fresh one"""
+    ref, prob = tokenize(data, 4096)
+    if prob:
+        return
+    for b in (4096, 1, 3):
+        p = CountingParser(io.BytesIO(data))
+        p.BUFSIZ = b
+        p.nfill = 0
+        p.budget = 16 * len(data) + 128
+        got = []
+        err = None
+        _MON["count"] = 0
+        _MON["budget"] = 200 * len(data) + 4000
+        try:
+            for _round in range(2):
+                got = []
+                p.seek(0)
+                try:
+                    while True:
+                        pos, t = p.nexttoken()
+                        got.append((pos, canon_tok(t)))
+                except PSEOF:
+                    pass
+        except (Livelock, Spin):
+            err = "livelock"
+        except Exception as e:  # noqa
+            err = type(e).__name__
+        _MON["budget"] = 1 << 60
+        st.states += 1
+        st.transitions += 1
+        st.traces += 1
+        st.case(None, nontrivial=bool(ref), outcome=("reuse", len(ref)))
+        if err or got != ref:
+            st.violation("C14/reused-parser-after-eof-and-seek", {"data": data, "bufsiz": b, "reuse": True}, ref, err or got,
+                         "second pass of one parser object after seek(0) differs from a fresh parser")
+
+
+LONG_UNITS = [b"7", b"a", b"/N", b"(s", b"<4", b"%c", b"+", b"1.", b" ", b"\\"]
+LONG_LENGTHS = [4095, 4096, 4097, 4400, 9000]
+
+
+def long_tokens():
+    """one very long token of each lexical class (longer than the default buffer and than CPython's
+    4300-digit int limit), between two short tokens"""
+    for u in LONG_UNITS:
+        for n in LONG_LENGTHS:
+            head, fill = u[:-1], u[-1:]
+            body = head + fill * n
+            close = {b"(": b")", b"<": b">", b"%": b"\n"}.get(head[:1] if head else fill, b"")
+            yield b"x " + body + close + b" y"
+
+
 def shards(tier):
     out = [("sigma", "short")]
     out += [("sigma", i) for i in range(len(SIGMA))]
@@ -246,6 +305,8 @@ def shards(tier):
     full = SIGMA + SIGMA_X
     out += [("sx", "short")] + [("sx", i) for i in range(len(full))]
     out += [("seek", i) for i in range(len(SIGMA))]
+    out += [("reuse", i) for i in range(len(SIGMA))]
+    out += [("long",), ("names",)]
     return out
 
 
@@ -271,6 +332,43 @@ def _run_shard(shard, tier, st):
         for data in _strings(SIGMA, [SIGMA[shard[1]]], b["seek_len"]):
             check_seek(data, st)
         return
+    if fam == "reuse":
+        for data in _strings(SIGMA, [SIGMA[shard[1]]], b["seek_len"]):
+            check_reuse(data, st)
+        return
+    if fam == "long":
+        for data in long_tokens():
+            ref, prob = tokenize(data, 4096)
+            st.states += 1
+            st.traces += 1
+            st.case(None, nontrivial=bool(ref), outcome=("long", len(ref)))
+            for kind, detail in prob:
+                st.violation(f"C14/{kind}:{detail if kind=='exception' else ''}", {"data": data, "bufsiz": 4096}, "only PSEOF; positions in range", detail, kind)
+            for bs in (1, 7, 4095, 4097):
+                toks, prob2 = tokenize(data, bs)
+                st.transitions += 1
+                for kind, detail in prob2:
+                    st.violation(f"C14/{kind}:{detail if kind=='exception' else ''}", {"data": data, "bufsiz": bs}, "only PSEOF; positions in range", detail, kind)
+                if toks != ref and not prob and not prob2:
+                    st.violation("C14/buffer-dependent", {"data": data, "bufsiz": bs}, len(ref), len(toks), "long token: sequence differs from single-buffer run")
+        st.sample({"family": "long", "units": LONG_UNITS, "lengths": LONG_LENGTHS})
+        return
+    if fam == "names":
+        # 40000 distinct names and keywords in one process, then the interning contract again
+        blob = b" ".join(b"/N%d k%d" % (i, i) for i in range(40000))
+        ref, prob = tokenize(blob, 4096)
+        st.states += 1
+        st.traces += 1
+        st.case(None, nontrivial=True, outcome=("names", len(ref)))
+        for kind, detail in prob[:3]:
+            st.violation(f"C14/{kind}:{detail if kind=='exception' else ''}", {"data": b"<40000 distinct names>", "bufsiz": 4096, "names": True}, "interned", detail, kind)
+        for data in (b"/Fresh1 fresh2 /N5 k7", b"obj endobj /Type"):
+            for bs in (4096, 2):
+                toks, prob2 = tokenize(data, bs)
+                st.transitions += 1
+                for kind, detail in prob2:
+                    st.violation(f"C14/{kind}:{detail if kind=='exception' else ''}", {"data": data, "bufsiz": bs, "names": True}, "interned", detail, kind)
+        return
     if fam == "sigma":
         alpha, maxlen, plen = SIGMA, b["sigma_len"], 1
     elif fam == "s12":
@@ -295,6 +393,15 @@ def replay(case):
 
     st = Stats()
     data = case["data"]
+    if case.get("reuse") or case.get("names"):
+        from mc.core import Stats
+
+        st = Stats()
+        if case.get("reuse"):
+            check_reuse(data, st)
+        else:
+            _run_shard(("names",), "quick", st)
+        return [{"signature": v["signature"], "expected": v["expected"], "observed": v["observed"]} for v in st.violations]
     sk = case.get("seek", 0)
     ref, prob = tokenize(data, 4096, seek=sk)
     toks, prob2 = tokenize(data, case["bufsiz"], seek=sk)
